@@ -278,23 +278,53 @@ def r19_5(run):
             raise AnalysisError("%s: the dictionary of written pipe columns was not found" % fname)
         d = dict((k_[1], v_) for k_, v_ in dicts[0][1] if k_[0] == "c")
         loaded = None
+        okov, nov = True, 0
+
+        def leaves(t, conds=()):
+            """(path of (condition, polarity), leaf) of a conditional value"""
+            if t[0] == "ite" and len(t) == 4:
+                return leaves(t[2], conds + ((t[1], True),)) + leaves(t[3], conds + ((t[1], False),))
+            return [(conds, t)]
         for col in ("inner_diameter_mm", "outer_diameter_mm", "k_mm", "u_w_per_m2k"):
             v = d.get(col)
-            m = match(("idx", ("?", "pp"), (C(col),)), v) if v is not None else None
-            ok = False
-            if m is not None:
-                rs = [x for x in walk(m["pp"]) if x[0] == "call" and x[1] == ("f", ru.qualname)]
-                ok = bool(rs) and all(x[2] and x[2][0][0] == "call" and x[2][0][1] == ("f", ls.qualname) and x[2][0][2][0] == ("n", "net")
-                                      and x[2][0][2][2] == C("pipe") for x in rs)
-                base_roots = roots(m["pp"])
-                ok = ok and all(any(tkey(x) == rk for x in rs) or rk.startswith("('dict'") or rk.startswith("('new'") for rk in base_roots)
-                loaded = m["pp"]
+            ok = v is not None
+            n_std = 0
+            for conds, leaf in (leaves(v) if v is not None else []):
+                m = match(("idx", ("?", "pp"), (C(col),)), leaf)
+                if m is not None:
+                    # a value of the (possibly updated) parameter dictionary: it must come from retrieve_u(load_std_type(net, ., 'pipe'))
+                    pp = m["pp"]
+                    ovs = []
+                    while pp[0] in ("upd", "ite"):
+                        if pp[0] == "upd":
+                            ovs.append(pp)
+                            pp = pp[1]
+                        else:
+                            # dictionary updated on one arm only: both arms are built on the same loaded parameters
+                            pp = pp[3] if pp[2][0] in ("upd", "ite") and tkey(roots(pp[2])) == tkey(roots(pp[3])) else pp[2]
+                    rs = [x for x in walk(pp) if x[0] == "call" and x[1] == ("f", ru.qualname)]
+                    good = all(x[2] and x[2][0][0] == "call" and x[2][0][1] == ("f", ls.qualname) and x[2][0][2][0] == ("n", "net")
+                               and x[2][0][2][2] == C("pipe") for x in rs)
+                    base_roots = roots(m["pp"])
+                    good = good and all(any(tkey(x) == rk for x in rs) or rk.startswith("('dict'") or rk.startswith("('new'") for rk in base_roots)
+                    ok = ok and good
+                    n_std += 1 if rs else 0      # a container filled per element (list arm) does not count as the loaded parameters
+                    loaded = m["pp"]
+                else:
+                    # an override: only the deprecated u / k arguments, and only when they were given (not None)
+                    nov += 1
+                    given = False
+                    for c_, pol in conds:
+                        c2, p2 = norm_cond(c_, pol)
+                        if c2[0] == "cmp" and c2[1] == "is not" and C(None) in (c2[2], c2[3]) and tkey(leaf) in (tkey(c2[2]), tkey(c2[3])) and p2:
+                            given = True
+                    okov = okov and col in ("u_w_per_m2k", "k_mm") and given
+            ok = ok and n_std >= 1
             run.ob("%s|%s<-std-type" % (fname, col), ok,
                    "%s.%s is read from retrieve_u(load_std_type(net, <std type>, 'pipe'))" % (fname, col), w, detail=tshow(v)[:160] if v else None)
         run.ob("%s|loads-through-retrieve_u" % fname, loaded is not None,
                "the parameters are load_std_type(...) passed through retrieve_u", w)
-        # overrides only from explicitly given (not None) arguments, only for u and k
-        okov, nov = True, 0
+        # overrides inside the dictionary itself (not yet read out): same discipline
         if loaded is not None:
             for x in walk(loaded):
                 if x[0] == "ite" and x[2][0] == "upd" and x[2][2] and x[2][2][0][0] == "c":
